@@ -156,6 +156,37 @@ def generate(rng, tier):
         for shape in ([], [3]):
             cases.append({"line": i2_line(S, None, None, shape, [fmt_v(1)] * gen.shape_size(shape), False, "build"),
                           "meta": {"viol": {"ShapeError"}, "extra": set()}})
+    # integer element types (i64, i32): axes reaching the ends of the type — neighbours whose difference does not fit — valid
+    # (strictly increasing) and invalid (ties, reversals) ones; f32 axes one ulp apart
+    for S, lo, hi in (("I", -(2 ** 63), 2 ** 63 - 1), ("J", -(2 ** 31), 2 ** 31 - 1)):
+        pool = [lo, lo + 1, lo // 2, -7, -1, 0, 1, 5, hi // 2, hi - 1, hi]
+        for _ in range(gen.N(tier, 40, 400)):
+            n = rng.choice([2, 3, 4])
+            ax = [rng.choice(pool) for _ in range(n)]
+            r_ = rng.random()
+            if r_ < 0.55:
+                ax = sorted(set(ax))
+                if len(ax) < 2:
+                    continue
+                n = len(ax)
+            elif r_ < 0.7:
+                ax = sorted(ax, reverse=True)
+            viol = violated_1d([n], ax, 2)
+            cases.append({"line": i1_line(S, ax, [n], list(range(n)), ("lin", False), "build", xlay=rng.choice(gen.LAYS_1D)),
+                          "meta": {"viol": viol, "extra": set()}})
+            ay = sorted({rng.choice(pool) for _ in range(3)})
+            if len(ay) >= 2:
+                v2 = (violated_1d([n], ax, 0) | violated_1d([len(ay)], ay, 0)) - {"NotEnoughData"}
+                cases.append({"line": i2_line(S, ax, ay, [n, len(ay)], list(range(n * len(ay))), False, "build"),
+                              "meta": {"viol": v2, "extra": set()}})
+    for _ in range(gen.N(tier, 20, 200)):
+        n = rng.choice([2, 3, 5])
+        ax = [vlib.f32_round(rng.uniform(-100, 100))]
+        for _ in range(n - 1):
+            ax.append(rng.choice([vlib.next_up32(ax[-1]), vlib.next_up32(ax[-1]), ax[-1], vlib.next_down32(ax[-1]), float("nan")])
+                      if rng.random() < 0.5 else vlib.next_up32(vlib.next_up32(ax[-1])))
+        viol = violated_1d([n], ax, 2)
+        cases.append({"line": i1_line("G", ax, [n], [float(i) for i in range(n)], ("lin", False), "build"), "meta": {"viol": viol, "extra": set()}})
     return cases
 
 
